@@ -437,9 +437,14 @@ func zzTimeTemplate(name string, full bool) string {
 // (or a time and a placeholder), every dash spacing, optional summary.
 func ZZ_C01_RangeTemplate() {
 	full := zz.Param("full") == 1
-	indent := []string{"    ", "\t"}[zz.Choose(2)]
+	indent := "    "
+	nsep, nsum := 3, 2
+	if full {
+		indent = []string{"    ", "\t"}[zz.Choose(2)]
+		nsep, nsum = 5, 3
+	}
 	t1 := zzTimeTemplate("a", full)
-	sep := []string{"-", " - ", " -", "- ", "  -  "}[zz.Choose(5)]
+	sep := []string{"-", " - ", "  -  ", " -", "- "}[zz.Choose(nsep)]
 	open := zz.Param("open") == 1
 	var v string
 	if open {
@@ -447,7 +452,7 @@ func ZZ_C01_RangeTemplate() {
 	} else {
 		v = t1 + sep + zzTimeTemplate("b", full)
 	}
-	sum := []string{"", " x", " #tag 1h"}[zz.Choose(3)]
+	sum := []string{"", " #tag 1h", " x"}[zz.Choose(nsum)]
 	rs, _, errs := NewSerialParser().Parse("2020-01-01\n" + indent + v + sum + "\n")
 	accepted := errs == nil
 	zz.Observe("accepted", accepted)
